@@ -41,11 +41,11 @@ macro_rules! box_h {
         });
     };
 }
-//@ prop=C02 tier=quick cost=10 fns="muxer::mp4::build_box,fragmented::build_box" bound="empty payload, any type" unwind=4
+//@ prop=C02 tier=quick cost=16 fns="muxer::mp4::build_box,fragmented::build_box" bound="empty payload, any type" unwind=4
 box_h!(c02_box_len0, 0);
 //@ prop=C02 tier=quick cost=10 fns="muxer::mp4::build_box,fragmented::build_box" bound="all payloads of 1 byte, any type" unwind=4
 box_h!(c02_box_len1, 1);
-//@ prop=C02 tier=quick cost=20 fns="muxer::mp4::build_box,fragmented::build_box" bound="all payloads of 7 bytes, any type" unwind=10
+//@ prop=C02 tier=quick cost=12 fns="muxer::mp4::build_box,fragmented::build_box" bound="all payloads of 7 bytes, any type" unwind=10
 #[kani::proof]
 #[kani::unwind(10)]
 #[kani::stub(muxide::invariant_ppt::__assert_invariant_impl, crate::stubs::assert_invariant_stub)]
@@ -62,7 +62,7 @@ pub fn c02_box_len7() {
     }
     crate::vcover!(true, "reached");
 }
-//@ prop=C02 tier=thorough cost=30 fns="muxer::mp4::build_box,fragmented::build_box" bound="all payloads of 16 bytes, any type" unwind=19
+//@ prop=C02 tier=thorough cost=10 fns="muxer::mp4::build_box,fragmented::build_box" bound="all payloads of 16 bytes, any type" unwind=19
 #[kani::proof]
 #[kani::unwind(19)]
 #[kani::stub(muxide::invariant_ppt::__assert_invariant_impl, crate::stubs::assert_invariant_stub)]
@@ -194,7 +194,7 @@ fn stbl_audio_body<const N: usize, const MAX: usize>(codec: AudioCodec, entry: u
     assert!(be32(&v, o[3] + 16) as usize == N && be32(&v, o[4] + 12) as usize == N, "stsz / stco counts = samples");
     core::mem::forget(t);
 }
-//@ prop=C02 tier=quick cost=90 fns="muxer::mp4::build_audio_stbl_box,build_audio_stsd_box,build_opus_box" bound="Opus stbl, 1 sample" unwind=40 stubs="fmt::format" mem=16
+//@ prop=C02 tier=quick cost=132 fns="muxer::mp4::build_audio_stbl_box,build_audio_stsd_box,build_opus_box" bound="Opus stbl, 1 sample" unwind=40 stubs="fmt::format" mem=16
 h!(c02_stbl_audio_opus_1, 40, { stbl_audio_body::<1, 175>(AudioCodec::Opus, 55) });
 //@ prop=C02 tier=thorough cost=90 fns="muxer::mp4::build_audio_stbl_box,build_mp4a_box,build_esds_box" bound="AAC stbl, 0 samples" unwind=40 stubs="fmt::format" mem=16
 h!(c02_stbl_audio_aac_0, 40, { stbl_audio_body::<0, 159>(AudioCodec::Aac(muxide::api::AacProfile::Lc), 75) });
